@@ -67,6 +67,33 @@ CATS = {
 }
 
 
+_TMP = {}
+
+
+def tmp_path(name):
+    """private directory per worker process, created lazily, removed when the worker exits"""
+    pid = os.getpid()
+    d = _TMP.get(pid)
+    if d is None:
+        import atexit
+        import shutil
+        from multiprocessing import util as _mpu
+
+        d = tempfile.mkdtemp(prefix="c06-")
+        _TMP.clear()
+        _TMP[pid] = d
+        _mpu.Finalize(None, shutil.rmtree, args=(d, True), exitpriority=1)
+        atexit.register(shutil.rmtree, d, True)
+    return os.path.join(d, name)
+
+
+def _unlink(path):
+    try:
+        os.unlink(path)
+    except OSError:
+        pass
+
+
 # ---------------------------------------------------------------------------------------------
 # observation of the implementation's result
 
@@ -393,11 +420,11 @@ def expected_rt(case, trackmap, merged):
         for pitch, on, off, vel, ch, tr in p.get("notes", []):
             exp["notes"].append(dict(pitch=pitch, vel=vel, ch=_ech(ch), track=tr_of(pi, tr), on=opts(on), off=opts(off)))
             first.append(max(opts(on)))
-            pairs.append((_ech(ch), tr_of(pi, tr)))
+            pairs.append((_ech(ch), trackmap[(pi, _etr(tr))]))
         for t, num, val, ch, tr in p.get("controls", []):
             exp["controls"].append(dict(num=num, val=val, ch=_ech(ch), track=tr_of(pi, tr), t=opts(t)))
             first.append(max(opts(t)))
-            pairs.append((_ech(ch), tr_of(pi, tr)))
+            pairs.append((_ech(ch), trackmap[(pi, _etr(tr))]))
         for t, prog, ch, tr in p.get("programs", []):
             exp["programs"].append(dict(prog=prog, ch=_ech(ch), track=tr_of(pi, tr), t=opts(t)))
         for t, fifths, mode, tr in p.get("keysigs", []):
@@ -407,7 +434,8 @@ def expected_rt(case, trackmap, merged):
         for t, typ, attrs, tr in p.get("metas", []):
             exp["metas"].append(dict(type=typ, attrs=dict(attrs), track=raw_tr(tr), t=opts(t)))
         if not p.get("programs") and pairs:
-            groups.append([dict(prog=0, ch=c, track=r, t=(), tmax=min(first)) for c, r in sorted(set(pairs))])
+            # one default per (channel, original track), whatever merging does to the track afterwards
+            groups.append([dict(prog=0, ch=c, track=0 if merged else r, t=(), tmax=min(first)) for c, r in sorted(set(pairs))])
     return exp, groups
 
 
@@ -431,7 +459,7 @@ def sanitize_map(res, case, perf):
     return mp
 
 
-def _save(case, obj, tmpdir, res, stage="rt"):
+def _save(case, obj, res, stage="rt"):
     """Returns (mido file as written, argument for the loader) or None."""
     import mido
     from partitura.io.exportmidi import save_performance_midi
@@ -443,7 +471,7 @@ def _save(case, obj, tmpdir, res, stage="rt"):
     if case["msave"] or not case.get("defaults"):
         kw["merge_tracks_save"] = bool(case["msave"])
     io_mode = case["io"]
-    path = os.path.join(tmpdir, "c06.mid")
+    path = tmp_path("c06.mid")
     if io_mode == "object":
         ok, mf = guarded(res, "%s-save" % stage, save_performance_midi, obj, None, **kw)
         if not ok:
@@ -524,8 +552,8 @@ def eval_rt(case):
         obj = list(parts)
 
     clock = [lambda k: M.tick_seconds(k, ppq, mpq)]
-    with tempfile.TemporaryDirectory(prefix="c06-") as tmpdir:
-        saved = _save(case, obj, tmpdir, res)
+    try:
+        saved = _save(case, obj, res)
         res.transitions += 1
         if saved is None:
             res.outcome = "save-failed"
@@ -541,6 +569,9 @@ def eval_rt(case):
         # --- load
         perf = _load(case, arg, res)
         res.transitions += 1
+    finally:
+        if case["io"] != "object":
+            _unlink(tmp_path("c06.mid"))
     if perf is None:
         res.outcome = "load-failed"
         return res
@@ -557,18 +588,17 @@ def eval_rt(case):
     # --- second generation: the loaded performance is itself a performance
     if good and file_ok and case.get("gen2", True):
         c2 = dict(case, io="object", msave=0, mload=0, loader="lpm", defaults=False)
-        with tempfile.TemporaryDirectory(prefix="c06-") as tmpdir:
-            saved = _save(c2, perf, tmpdir, res, stage="rt2")
+        saved = _save(c2, perf, res, stage="rt2")
+        res.transitions += 1
+        if saved is not None:
+            perf2 = _load(c2, saved[1], res, stage="rt2")
             res.transitions += 1
-            if saved is not None:
-                perf2 = _load(c2, saved[1], res, stage="rt2")
-                res.transitions += 1
-                if perf2 is not None:
-                    ok, obs2 = guarded(res, "rt2-loaded-structure", observe, perf2)
-                    if ok:
-                        compare(res, "rt2", exp, obs2, clock, groups, where="save/load of a loaded performance")
-                        check_ids(res, "rt2", perf2)
-                        res.traces += 1
+            if perf2 is not None:
+                ok, obs2 = guarded(res, "rt2-loaded-structure", observe, perf2)
+                if ok:
+                    compare(res, "rt2", exp, obs2, clock, groups, where="save/load of a loaded performance")
+                    check_ids(res, "rt2", perf2)
+                    res.traces += 1
     ties = sum(1 for n in exp["notes"] for k in ("on", "off") if len(n[k]) > 1)
     res.outcome = "notes=%d parts=%d ties=%d %s" % (nnotes, len(perf.performedparts), ties,
                                                     "ok" if not res.violations else "bad")
@@ -587,14 +617,17 @@ def eval_raw(case):
     default_mpq = 60 * 10**6 // bpm if (60 * 10**6) % bpm == 0 else int(60 * (10**6 / bpm))
     mf = mido_of_abstract(tracks, ppq)
     c = dict(case, mload=case["merge"])
-    with tempfile.TemporaryDirectory(prefix="c06-") as tmpdir:
-        if case["io"] == "object":
-            arg = mf
-        else:
-            arg = os.path.join(tmpdir, "c06raw.mid")
-            mf.save(arg)
+    if case["io"] == "object":
+        arg = mf
+    else:
+        arg = tmp_path("c06raw.mid")
+        mf.save(arg)
+    try:
         perf = _load(c, arg, res, stage="raw")
         res.transitions += 1
+    finally:
+        if case["io"] != "object":
+            _unlink(arg)
     if perf is None:
         res.outcome = "load-failed"
         return res
@@ -963,7 +996,7 @@ RAW_CONTENT = {
         [250, "off", 0, 62], [260, "cc", 0, 64, 0],
     ]],
     "two": [
-        [[0, "on", 0, 60, 64], [50, "cc", 0, 64, 127], [100, "off", 0, 60], [100, "on", 0, 60, 70], [230, "on0", 0, 60],
+        [[0, "on", 0, 60, 64], [50, "cc", 0, 67, 127], [100, "off", 0, 60], [100, "on", 0, 60, 70], [230, "on0", 0, 60],
          [230, "ts", 3, 8]],
         [[0, "pc", 1, 7], [10, "on", 1, 61, 127], [60, "off", 1, 61], [100, "on", 1, 60, 2], [150, "cc", 1, 1, 9],
          [220, "on0", 1, 60], [270, "pc", 1, 8]],
@@ -1016,6 +1049,8 @@ def gen_raw_tempo(layouts, ticks, values, maxlen, block=None, full_len=2):
         content = RAW_CONTENT[layout]
         for n, seq in tempo_sequences(len(content), ticks, values, maxlen):
             for merge in (0, 1):
+                if merge and layout == "three":
+                    continue  # equal pitch and channel overlap across its tracks
                 for ppq in (480, 96):
                     i += 1
                     bpm = 100 if i % 3 == 0 else 120
